@@ -1,6 +1,6 @@
 (* C05 — decode failures are reported definitively, with the right code and position.
    Statements only; proofs in theories/PBuild_proofs.v, PLoad_proofs.v. *)
-From CB Require Import Word PStream SpecHead PBuild SpecParse PRun PBuild_proofs PFinal HHeap HItems HOps HRef_proofs HCont_proofs HRead_proofs HLoad_proofs PLoad_proofs.
+From CB Require Import Word PStream SpecHead PBuild SpecParse PRun PBuild_proofs PFinal HHeap HItems HOps HRef_proofs HCont_proofs HRead_proofs HLoad_proofs PLoad_proofs PIdeal_proofs.
 Local Open Scope N_scope.
 
 (* total characterisation: for every input, every nesting limit L and every allocator size cap,
@@ -59,3 +59,21 @@ Theorem C05_prefix : forall L cap x t n k, bytes_ok x -> len x < SIZE_MAX -> loa
   exists p, load L cap (firstnN k x) = LErr ENotEnough p p /\ p <= k.
 Proof. exact C05_load_prefix. Qed.
 Print Assumptions C05_prefix.
+
+(* ---- against an independent "ideal" parser that rejects at the FIRST point of violation --------
+   PIdeal_proofs.parse_ideal is a second recursive-descent parser that, unlike the library, refuses a
+   non-chunk item inside a chunked string at that item's head.  cbor_load agrees with it on every
+   input except inside that one documented laziness (the streaming decoder keeps decoding the
+   illegally opened item and reports when it completes), and there the report is never earlier and
+   never a soft (NODATA) or absent error. *)
+Theorem C05_first_violation : forall L cap buf c p, bytes_ok buf -> len buf < SIZE_MAX ->
+  load_ideal L cap buf = LErr c p p -> ~ chunk_exception L cap buf ->
+  load L cap buf = LErr c p p.
+Proof. exact PIdeal_proofs.C05_first_violation. Qed.
+Print Assumptions C05_first_violation.
+
+Theorem C05_late : forall L cap buf c p, bytes_ok buf -> len buf < SIZE_MAX ->
+  load_ideal L cap buf = LErr c p p -> chunk_exception L cap buf ->
+  c = ESyntax /\ exists c' p', load L cap buf = LErr c' p' p' /\ c' <> ENone /\ c' <> ENoData /\ p <= p'.
+Proof. exact PIdeal_proofs.C05_late. Qed.
+Print Assumptions C05_late.
